@@ -275,6 +275,17 @@ pub fn read_instrs(
 
 /// Writes the instructions of a complete script, attaching useful information on errors.
 #[inline(never)]
+/// Helper for [`InstrFormat::write_instr`].  Converts a field of an instruction to the (narrower) integer type
+/// that stores it in the file, producing an error if the value does not fit.
+pub fn fit_instr_field<T, U>(emitter: &dyn Emitter, what: &str, value: T) -> Result<U, crate::error::ErrorReported>
+where
+    T: Copy + std::fmt::Display + std::convert::TryInto<U>,
+{
+    value.try_into().map_err(|_| emitter.as_sized().emit(error!(
+        "{what} {value} does not fit in an instruction of this format",
+    )))
+}
+
 pub fn write_instrs(
     f: &mut BinWriter,
     emitter: &impl Emitter,
